@@ -102,6 +102,7 @@ static void snapshot(int print) {
     snap_put(&k, "InGpio", i, supla_input_cfg[i].gpio_id, print);
     snap_put(&k, "InTrig", i, supla_input_cfg[i].active_triggers, print);
     snap_put(&k, "InRelay", i, supla_input_cfg[i].relay_gpio_id, print);
+    snap_put(&k, "InState", i, supla_input_cfg[i].last_state, print);
   }
   for (i = 0; i < CHANNEL_MAX_COUNT; i++) {
     snap_put(&k, "RtCfg", i, devconn ? devconn->runtime_config_channels[i] : 0, print);
@@ -352,6 +353,24 @@ int main(void) {
           if (countdown_timer_vars.items[i].channel_number != 255)
             sdk_out("ITEM %d %u %u", i, countdown_timer_vars.items[i].channel_number, countdown_timer_vars.items[i].time_left_ms);
         sdk_out("DELAY %u", countdown_timer_vars.delay_ms);
+      } else if (!strcmp(op, "debprobe") && ops_ntok == 3) { /* input index, sampled levels as a 0/1 string */
+        int i = atoi(ops_tok[1]);
+        if (i < 0 || i >= INPUT_MAX_COUNT || supla_input_cfg[i].gpio_id > 15) sdk_out("BADOP");
+        else {
+          supla_input_cfg_t *c = &supla_input_cfg[i];
+          int pull = (c->flags & INPUT_FLAG_PULLUP) ? 1 : 0;
+          sdk_out("INSTATE %d", pull ? !c->last_state : c->last_state);
+          sdk_quiet_gpio = 1;
+          supla_esp_input_start_debounce_timer(c);
+          for (const char *b = ops_tok[2]; *b; b++) {
+            if (*b == '1') sdk_gpio_in |= (1u << c->gpio_id); else sdk_gpio_in &= ~(1u << c->gpio_id);
+            uint8 before = c->last_state;
+            if (c->debounce_step != 0 && c->debounce_timer.timer_func) c->debounce_timer.timer_func(c->debounce_timer.timer_arg);
+            sdk_out("STEP %u %u", c->debounce_step, c->debounce_step ? c->debounce_value : 0);
+            if (c->last_state != before) sdk_out("NOTIFY %d", pull ? !c->last_state : c->last_state);
+          }
+          sdk_quiet_gpio = 0;
+        }
       } else if (!strcmp(op, "rslog") && ops_ntok == 2) {
         fw_hook_rs_log = atoi(ops_tok[1]);
         for (int i = 0; i < RS_MAX_COUNT; i++)
